@@ -12,7 +12,7 @@ The constants below (`tableSize`, `nibbleBits`, `naiveMax`, `clampLo`, `clampHi`
 the loops are compared with facts extracted from the Go source by the translator
 (`Gen/MulFacts.lean`, theorem `msm_structure_matches_model`).
 
-Scalars are little-endian byte strings (`List UInt8`, least significant byte first), exactly what
+Scalars are little-endian byte strings (`Array UInt8`, least significant byte first), exactly what
 the Go functions receive.
 -/
 namespace BronVerif.Window
@@ -30,10 +30,13 @@ def clampLo : Nat := 2
 /-- `if w > 16 { w = 16 }` -/
 def clampHi : Nat := 16
 
-/-- value of a little-endian byte string -/
-def leToNat : List UInt8 → Nat
+/-- value of a little-endian byte list -/
+def leToNatL : List UInt8 → Nat
   | [] => 0
-  | x :: xs => x.toNat + 256 * leToNat xs
+  | x :: xs => x.toNat + 256 * leToNatL xs
+
+/-- value of a little-endian byte string -/
+def leToNat (b : Array UInt8) : Nat := leToNatL b.toList
 
 /-- Go `bits.Len(uint(n))` -/
 def bitsLen (n : Nat) : Nat := if n = 0 then 0 else n.log2 + 1
@@ -48,8 +51,8 @@ def msmWidth (n : Nat) : Nat :=
 def numWindows (maxBits w : Nat) : Nat := (maxBits + w - 1) / w
 
 /-- `maxBits`: 8 × the longest scalar -/
-def maxBits (scalars : List (List UInt8)) : Nat :=
-  scalars.foldl (fun m b => if b.length * 8 > m then b.length * 8 else m) 0
+def maxBits (scalars : List (Array UInt8)) : Nat :=
+  scalars.foldl (fun m b => if b.size * 8 > m then b.size * 8 else m) 0
 
 /-! ## `getWindow` -/
 
@@ -58,17 +61,17 @@ def bitOf (x : UInt8) (shift : Nat) : Nat := (x.toNat >>> shift) &&& 1
 
 /-- the loop `for k := range w { … }` of `getWindow` with `r` iterations left, including its `break`
 when the byte index runs past the scalar -/
-def getWindowAux (b : List UInt8) (start : Nat) : Nat → Nat → Nat → Nat
+def getWindowAux (b : Array UInt8) (start : Nat) : Nat → Nat → Nat → Nat
   | 0, _, acc => acc
   | r + 1, k, acc =>
     let bitIndex := start + k
     let byteIndex := bitIndex / 8
-    if byteIndex ≥ b.length then acc
+    if byteIndex ≥ b.size then acc
     else getWindowAux b start r (k + 1) (acc ||| (bitOf (b.getD byteIndex 0) (bitIndex % 8) <<< k))
 
 /-- window of `w` bits starting at bit `start` (bit 0 = least significant bit of byte 0) -/
-def getWindow (w : Nat) (b : List UInt8) (start : Nat) : Nat :=
-  if b.length = 0 then 0 else getWindowAux b start w 0 0
+def getWindow (w : Nat) (b : Array UInt8) (start : Nat) : Nat :=
+  if b.size = 0 then 0 else getWindowAux b start w 0 0
 
 section group
 variable {G : Type} [Add G] [OfNat G 0]
@@ -98,9 +101,9 @@ def table (w : Nat) (P : G) : Array G := buildTable P (2 ^ w / 2 - 1) #[0, P]
 
 /-- **Go-literal model of `ScalarMulLowLevel`**: bytes from the last to the first, high nibble
 `(s[i] >> 4) & 0b1111` then low nibble `s[i] & 0b1111`, each after four doublings. -/
-def smulNibble (P : G) (s : List UInt8) : G :=
+def smulNibble (P : G) (s : Array UInt8) : G :=
   let t := table nibbleBits P
-  s.foldr (fun x res =>
+  s.toList.foldr (fun x res =>
     let res := dblN nibbleBits res
     let res := res + t.getD ((x.toNat >>> 4) &&& 0b1111) 0
     let res := dblN nibbleBits res
@@ -108,9 +111,9 @@ def smulNibble (P : G) (s : List UInt8) : G :=
 
 /-- **generic fixed-window ladder**: table of `2^w` multiples, digits `getWindow w s (w·j)` from
 the top window down, `w` doublings then one table addition per window -/
-def windowedSmul (w : Nat) (P : G) (s : List UInt8) : G :=
+def windowedSmul (w : Nat) (P : G) (s : Array UInt8) : G :=
   let t := table w P
-  ladder (fun acc j => dblN w acc + t.getD (getWindow w s (j * w)) 0) (numWindows (s.length * 8) w) 0
+  ladder (fun acc j => dblN w acc + t.getD (getWindow w s (j * w)) 0) (numWindows (s.size * 8) w) 0
 
 /-! ## Pippenger bucket multi-scalar multiplication -/
 
@@ -127,23 +130,23 @@ def collapse (isz : G → Bool) (l : List G) (acc : G) : G × G :=
     (run, s.2 + run)) (0, acc)
 
 /-- body of the window loop -/
-def windowStep (isz : G → Bool) (w : Nat) (scalars : List (List UInt8)) (points : List G) (acc : G) (wIdx : Nat) : G :=
+def windowStep (isz : G → Bool) (w : Nat) (scalars : List (Array UInt8)) (points : List G) (acc : G) (wIdx : Nat) : G :=
   let acc := dblN w acc
   let B := scatter (Array.replicate (2 ^ w) 0) (scalars.map fun b => getWindow w b (wIdx * w)) points
   (collapse isz (B.toList.drop 1) acc).2
 
 /-- the bucket method with window width `w` over `nw` windows -/
-def bucketCore (isz : G → Bool) (w nw : Nat) (scalars : List (List UInt8)) (points : List G) : G :=
+def bucketCore (isz : G → Bool) (w nw : Nat) (scalars : List (Array UInt8)) (points : List G) : G :=
   ladder (windowStep isz w scalars points) nw 0
 
 /-- the naive path `n ≤ 7` -/
-def naiveMsm : List (List UInt8) → List G → G → G
+def naiveMsm : List (Array UInt8) → List G → G → G
   | b :: bs, P :: ps, acc => naiveMsm bs ps (acc + smulNibble P b)
   | _, _, acc => acc
 
 /-- **model of `MultiScalarMulLowLevel`** (`scalars.length = points.length` is the Go
 precondition; it panics otherwise). `isz` is the implementation's `IsZero`. -/
-def msm (isz : G → Bool) (scalars : List (List UInt8)) (points : List G) : G :=
+def msm (isz : G → Bool) (scalars : List (Array UInt8)) (points : List G) : G :=
   let n := points.length
   if n = 0 then 0
   else if n ≤ naiveMax then naiveMsm scalars points 0
